@@ -341,6 +341,12 @@ func main() {
 
 	// ---- evidence
 	if *replay == "" {
+		if len(merged.Samples) == 0 {
+			// every shard ended early: show the violating cases instead
+			for _, f := range failures {
+				merged.Samples = append(merged.Samples, f.Case)
+			}
+		}
 		writeEvidence(*prop, *tier, seed, cfg, merged, distinct, nviol, fuzzNotes, time.Since(start).Seconds(), shards)
 	}
 	fmt.Printf("%s %s seed=%d shards=%d evaluations=%d distinct_nontrivial=%d replayed=%d violations=%d wall=%.1fs exit=%d\n",
